@@ -51,6 +51,8 @@ fn corrupt_structured(r: &Replay, rng: &mut Rng, kind: u64) -> (Vec<u8>, String)
         _ => { if let Some(f) = r.frames.first_mut() { f.id = [i32::MAX, i32::MIN, -124, 0][(rng.next() % 4) as usize]; } body = body_events(&r, &pad); "extreme-first-id" }
     };
     let mut out = assemble(&r, &sizes, &body, &junk, &pad);
+    // the length byte of the payload-size table itself
+    if rng.next() % 12 == 0 && out.len() > 17 { let cur = out[16]; out[16] = [0u8, 1, 2, 3, 4, 255, cur.wrapping_add(1), cur.wrapping_sub(1), cur.wrapping_add(3)][(rng.next() % 9) as usize]; return (out, format!("{}+tablelen", name)); }
     // header / raw_len edits
     if rng.next() % 6 == 0 { let l: u32 = [0u32, 1, 14, u32::MAX, (out.len() as u32).wrapping_sub(20), 1 << 31][(rng.next() % 6) as usize]; out[11..15].copy_from_slice(&l.to_be_bytes()); return (out, format!("{}+rawlen", name)); }
     (out, name.to_string())
@@ -220,8 +222,11 @@ fn irr(rng: &mut Rng, ctx: &mut Ctx) {
         let x = assemble(&r, &table(&r, &pad), &body, &junk, &pad);
         tags.push(format!("irr{}", what));
         // C08: same game as without the irregularities
-        let (l, g) = read_line(&x, false, false);
-        let mut c = Case::new(read_cmd(false, false, &x), l.clone()); c.tags = tags.clone();
+        let hashed = k % 2 == 1;
+        let (l0, g) = read_line(&x, false, hashed);
+        let mut c = Case::new(read_cmd(false, hashed, &x), l0.clone()); c.tags = tags.clone();
+        let l = l0.replace(&format!("hashed=(some {})", x.len()), "hashed=none");
+        if hashed { if let Some(g) = &g { let xx = format!("xxh3:{:016x}", xxhash_rust::xxh3::xxh3_64(&x)); if g.hash.as_deref() != Some(xx.as_str()) { c.fail("C11", format!("hash {:?} != XXH3-64 of the file {} (replay with unknown events / large payloads)", g.hash, xx)); } } }
         if l != bl { c.fail("C08", format!("game differs from the one parsed without the tolerated irregularities: {} vs {}", &l[..l.len().min(200)], &bl[..bl.len().min(200)])); if what == 2 { c.fail("C17", "permuted frame body changes the parsed game"); } }
         if let (Some(g), Some(bg)) = (&g, &bg) { if start_json(&g.start) != start_json(&bg.start) || end_json(&g.end) != end_json(&bg.end) || g.metadata != bg.metadata { c.fail("C08", "start/end/metadata differ from the regular parse"); } }
         ctx.push(c);
